@@ -152,10 +152,20 @@ def run_traced(text, flags="", inputs=(), budget=200, online=False):
     M.Context = SpyContext
     raised = ""
     final_stack = None
+    record = {1: "", 2: ""}
+    import builtins
+
+    builtins.VY_CANARY = []
     try:
         with runner.CaptureStdout() as cap:
             try:
-                common.with_alarm(lambda _: M.execute_vyxal(text, flags + "e", [repr(x) for x in inputs]), None, 4)
+                if online:
+                    common.with_alarm(lambda _: M.execute_vyxal(
+                        text, flags + "e", "\n".join(x if isinstance(x, str) else repr(x) for x in inputs),
+                        record, online_mode=True), None, 4)
+                else:
+                    common.with_alarm(lambda _: M.execute_vyxal(
+                        text, flags + "e", [x if isinstance(x, str) else repr(x) for x in inputs]), None, 4)
             except ProbeBudget:
                 raised = "budget"
             except common.CaseTimeout:
@@ -187,7 +197,11 @@ def run_traced(text, flags="", inputs=(), budget=200, online=False):
     ST.events = []
     if raised in ("budget", "timeout", "RecursionError"):
         events = []  # the run is not evaluated (skip:impl-...); its probes would only cost validation time
-    events.append({"ev": "Final", "stack": final_stack, "out": common.cps(cap.text), "d": d, "raised": raised,
+    canary = len(getattr(builtins, "VY_CANARY", []))
+    events.append({"ev": "Final", "stack": final_stack,
+                   "out": common.cps(record[1] if online else cap.text), "d": d, "raised": raised,
+                   "host": len(cap.text) if online else 0, "rec2": len(record[2]), "canary": canary,
                    "ctx": _vj(ctx.context_values[-1]) if ctx and ctx.context_values else {"x": "empty"}})
-    return {"text": common.cps(text), "flags": sorted(set(flags)), "inputs": [runner.value_json(x) for x in inputs],
-            "ev": events}
+    return {"text": common.cps(text), "flags": sorted(set(flags)),
+            "inputs": [runner.value_json(x) if not isinstance(x, str) else {"s": common.cps(x)} for x in inputs],
+            "online": bool(online), "ev": events}
